@@ -37,6 +37,25 @@ def keys_file(wd):
     return p
 
 
+def keys_check(wd, keys):
+    """KeysCheck.tla: every key non-zero, keys pairwise distinct, e.p. key by file, pawn-hash keys the stated subset.
+    Returns (tlc info, list of problems)."""
+    swd = os.path.join(wd, "keyscheck")
+    os.makedirs(swd, exist_ok=True)
+    info = run_tlc(os.path.join(SPEC, "KeysCheck.tla"), os.path.join(SPEC, "KeysCheck.cfg"), swd, env={"KEYS": keys}, timeout=1200)
+    out = info["out"]
+    probs = []
+    pos = out.find('"BADKEY"')
+    while pos >= 0 and len(probs) < 5:
+        probs.append(" ".join(out[pos:pos + 400].split()))
+        pos = out.find('"BADKEY"', pos + 10)
+    if not probs and ("is violated" in out):
+        probs.append("key table invariant violated")
+    if info["rc"] != 0 and not probs:
+        raise ToolError("KeysCheck failed:\n" + out[-1500:])
+    return info, probs
+
+
 def with_clocks(fen, hmc, fmn, plies=1):
     """C03 bounds the half-move clock to the 12 bits the move encoding has (0..4095): a case never lets the clock
     pass 4095, so the start value is capped by the number of plies the case can add"""
@@ -543,6 +562,11 @@ def check_board_prop(prop, tier, replay=None):
     log("%s: %d cases" % (prop, len(cases)))
     shards, results = run_board_cases(prop, cases, wd, keys)
     outcome = Outcome(prop)
+    if prop == "C06":
+        kinfo, probs = keys_check(wd, keys)
+        for pr in probs:
+            outcome.add({"family": "board", "fen": "8/8/8/8/8/8/8/8 b - - 0 1", "ops": [], "why": "key table extracted from probe positions"},
+                        {"p": "C06", "c": 0, "ev": "keys", "w": pr, "x": "non-zero, pairwise distinct keys; e.p. key by file; pawn-hash subset"}, None)
     from findings import matcher_for
     text = prop in ("C13", "C14")
     return summarize(prop, tier, cases, results, t0, outcome, matcher_for(prop), "model_checking",
